@@ -2,23 +2,19 @@
 """Regenerates MANIFEST.json from the table below (claimed properties) and properties.jsonl."""
 import json, os, subprocess
 ROOT = os.path.dirname(os.path.dirname(os.path.abspath(__file__)))
-CLAIMED = {
- "C01": dict(
-  text="Machine-checked proof (Coq) that the opcode table translated from opcodes.rs equals the ISA matrix derived from the aaabbbcc structure, and that size selection, little-endian operands, immediate/undefined rejection and relative-branch encoding follow the ISA for ALL operand values in range; tied to the code by regenerating table and constants from the Rust source on every run and by an exhaustive form x value-class x branch-distance x neighbour-pair correspondence/oracle run against the real assembler.",
-  ref="DESIGN.md §7 C01",
-  note="Trusted: Coq kernel, translator translate/t_opcodes.py, hand model of the Token::Instruction arm and operand-form mapping (validated by correspondence), extraction (ExtrOcamlBasic only), mosprobe. Neighbour independence is decided on the implementation by the exhaustive pair sweep. Known finding: branch to address 0 (F-C01b).",
-  technique="Rocq proof over translated opcode table + extracted-model correspondence"),
- "C03": dict(
-  text="Machine-checked proof (Coq) that the evaluator model -- running the operator table, flag order, modifier masks and literal conversion TRANSLATED from evaluator.rs/ast.rs on every run -- computes ordinary integer arithmetic for every expression tree of the numeric language inside the property's domain (structural induction, unbounded depth and values), that literals are sum digit*radix^i, `!-x` is NOT(NEG x), and that .byte/.word/.dword emit the low bytes little-endian. Precedence/associativity is tied by running the character-level Coq model of the expression grammar (operator tables translated from parser/mod.rs) and the real parser on generated texts (trees compared), and the bytes of `.dword <expr>` are compared with the extracted spec.",
-  ref="DESIGN.md §7 C03",
-  note="Trusted: Coq kernel, translators t_evaluator.py/t_grammar.py, hand model of the evaluator and of the expression grammar (validated by correspondence), extraction, mosprobe. The parser/printer round trip is not yet a theorem (decided by correspondence of the two parsers); petscii/petscreen encodings are not modelled yet.",
-  technique="Rocq proof (structural induction over expression trees) + translated operator tables + extracted-model correspondence"),
- "C09": dict(
-  text="Machine-checked proof (Coq) over a model of Bank::merge / merge_segments / write_banks / prg_header: for ALL segment lists the bank image is pointwise the last-defined covering segment else fill, spans min..max, sized banks are padded exactly or rejected, errors are exactly the listed conditions, files are the per-filename concatenation, prg header is the little-endian start. Tied to the code by running the extracted model and the extracted pointwise spec against `mos build` (every file byte for byte) and merge_segments (mosprobe) on generated bank/segment configurations.",
-  ref="DESIGN.md §7 C09",
-  note="Trusted: Coq kernel, hand model of binary_writer.rs/build.rs/finalize (validated by correspondence on every run), extraction, the harness' injective renaming of bank/file names to numbers. Empty writable segments are outside the property's domain.",
-  technique="Rocq proof (pointwise refinement of bank images) + extracted-model correspondence against mos build"),
-}
+CLAIMED = {}
+FRAG = os.path.join(ROOT, "manifest.d")
+for fn in sorted(os.listdir(FRAG)):
+    if fn.endswith(".json"):
+        # one fragment per claimed property: {"text", "ref", "note", "technique", optional "category", optional "not_applicable_reason"}
+        CLAIMED[fn[:-5]] = json.load(open(os.path.join(FRAG, fn), encoding="utf-8"))
+UNCLAIMED_REASONS = {}
+ur = os.path.join(ROOT, "manifest.d", "unclaimed.txt")
+if os.path.exists(ur):
+    for l in open(ur, encoding="utf-8"):
+        if l.strip() and not l.startswith("#"):
+            k, _, v = l.strip().partition(" ")
+            UNCLAIMED_REASONS[k] = v
 def main():
     props = [json.loads(l) for l in open(os.path.join(ROOT, "properties.jsonl"))]
     hooks_commits = []
@@ -41,9 +37,9 @@ def main():
             c = CLAIMED[pid]
             man["checks"].append({"property_id": pid, "quick_cmd": "./check %s --tier quick" % pid, "thorough_cmd": "./check %s --tier thorough" % pid,
               "evidence_file": "evidence/%s.json" % pid, "replay_cmd_template": "./check %s --replay {path}" % pid, "engine": "rocq-model+correspondence",
-              "level_claimed": {"category": "proof", "text": c["text"], "design_ref": c["ref"]}, "level_note": c["note"], "technique": c["technique"]})
+              "level_claimed": {"category": c.get("category", "proof"), "text": c["text"], "design_ref": c["ref"]}, "level_note": c["note"], "technique": c["technique"]})
         else:
-            man["not_applicable"].append({"property_id": pid, "reason": "not claimed yet: model and check under construction (DESIGN.md §9 staging); the technique applies"})
+            man["not_applicable"].append({"property_id": pid, "reason": UNCLAIMED_REASONS.get(pid, "not claimed yet: model and check under construction (DESIGN.md §9 staging); the technique applies")})
     json.dump(man, open(os.path.join(ROOT, "MANIFEST.json"), "w"), indent=1)
 if __name__ == "__main__":
     main()
